@@ -23,7 +23,7 @@ PROP = "C16"
 
 # ------------------------------------------------------------------ fakes for the integer lane
 class FakeArr:
-    def __init__(self, shape, itemsize=8, contiguous=True):
+    def __init__(self, shape, itemsize=8, contiguous=True, free_unit_strides=False):
         self.shape = tuple(shape)
         self.ndim = len(self.shape)
         self.flags = {"C_CONTIGUOUS": contiguous}
@@ -32,6 +32,10 @@ class FakeArr:
         for d in reversed(self.shape):
             st.insert(0, acc)
             acc = acc * d
+        if free_unit_strides and self.shape and isinstance(self.shape[-1], SymInt):
+            # NumPy: an axis of length 1 may carry ANY stride and the array still counts as C-contiguous (e.g. a[..., None] has
+            # stride 0 there); the index along such an axis is always 0, so the stride must not matter
+            st[-1] = SymInt(z3.If(self.shape[-1].t == 1, z3.Int("free_unit_stride"), z3.IntVal(itemsize)))
         self.strides = tuple(st)
         self.itemsize = itemsize
 
@@ -145,7 +149,7 @@ def run_swv(spec, tier):
             else:
                 D = [SymInt(z3.Int("D%d" % i)) for i in range(nw)]
                 dil_arg = tuple(D)
-            arr = FakeArr(tuple(lead) + tuple(xs))
+            arr = FakeArr(tuple(lead) + tuple(xs), free_unit_strides=True)
             try:
                 r = U.sliding_window_view(arr, tuple(W), step_arg, dil_arg)
                 assert r == "VIEW"
@@ -270,7 +274,11 @@ def _swv_violation(res, spec, msg, model, nl, nw):
 import numpy as np
 from mygrad import sliding_window_view
 lead, xs, W, S, D = %r, %r, %r, %r, %r
+FREE = %r
 arr = np.arange(int(np.prod(lead + xs)), dtype=np.float64).reshape(tuple(lead + xs))
+if FREE is not None and arr.shape[-1] == 1:
+    # a length-1 trailing axis with an arbitrary stride (what a[..., None] produces): still C-contiguous for NumPy
+    arr = np.lib.stride_tricks.as_strided(arr, arr.shape, arr.strides[:-1] + (FREE,))
 rule = all(w >= 1 and s >= 1 and d >= 1 and w <= x and w * d <= x for w, s, d, x in zip(W, S, D, xs))
 try:
     v = sliding_window_view(arr, tuple(W), tuple(S), tuple(D))
@@ -292,7 +300,7 @@ if accepted and not bad:
                 break
 print('accepted', accepted, 'rule', rule)
 print('REPRODUCED' if bad else 'NOT-REPRODUCED'); sys.exit(1 if bad else 0)
-''' % (lead, xs, W, S, D)
+''' % (lead, xs, W, S, D, (0 if "free_unit_stride" in m else None))
     path = common.write_replay(PROP, gradcase._safe(spec["name"]), src)
     ok, out = common.run_replay(path)
     if ok:
@@ -711,6 +719,10 @@ def run_values(spec, tier, mg):
                 if layout == "C":
                     x = symarr("x", (N, C) + xs)
                     w = symarr("w", (F, C) + ws)
+                elif layout == "S":
+                    # data that is non-contiguous along a LEADING axis only (every second channel of a larger batch)
+                    x = symarr("x", (N, 2 * C) + xs)[:, ::2]
+                    w = symarr("w", (F, C) + ws)
                 else:
                     # data and filters whose two spatial axes are swapped in memory (not C-ordered)
                     x = np.swapaxes(symarr("x", (N, C) + xs[::-1]), -1, -2)
@@ -723,7 +735,8 @@ def run_values(spec, tier, mg):
 
             import functools
 
-            for p in itertools.chain(explore(body), explore(functools.partial(body, "T")) if kind == "conv2d" else ()):
+            for p in itertools.chain(explore(body), explore(functools.partial(body, "T")) if kind == "conv2d" else (),
+                                     explore(functools.partial(body, "S")) if (kind == "conv2d" or (xs[0] >= 3 and S == (1,) and P == (0,))) else ()):
                 if p.exc is not None:
                     res["status"] = common.INCONCLUSIVE
                     res["notes"].append("conv raised %s" % p.exc)
@@ -752,7 +765,10 @@ def run_values(spec, tier, mg):
             valid = all(xs[i] - ws[i] >= 0 and (xs[i] - ws[i]) % S[i] == 0 for i in range(len(xs)))
 
             def body(layout="C"):
-                x = symarr("x", (1,) + xs) if layout == "C" else np.swapaxes(symarr("x", (1,) + xs[::-1]), -1, -2)
+                if layout == "S":
+                    x = symarr("x", (4,) + xs)[::2]  # non-contiguous along the leading axis only
+                else:
+                    x = symarr("x", (1,) + xs) if layout == "C" else np.swapaxes(symarr("x", (1,) + xs[::-1]), -1, -2)
                 try:
                     out = max_pool(x, ws, S, constant=True)
                     return ("ok", out.data, x)
@@ -761,7 +777,8 @@ def run_values(spec, tier, mg):
 
             import functools
 
-            for p in itertools.chain(explore(body), explore(functools.partial(body, "T")) if kind == "pool2d" else ()):
+            for p in itertools.chain(explore(body), explore(functools.partial(body, "T")) if kind == "pool2d" else (),
+                                     explore(functools.partial(body, "S")) if int(np.prod(xs)) <= 4 else ()):
                 if p.exc is not None:
                     res["status"] = common.INCONCLUSIVE
                     res["notes"].append("pool raised %s" % p.exc)
@@ -777,7 +794,7 @@ def run_values(spec, tier, mg):
                 # naive: out[n, g] = max over window; as a specification: out >= every window element and equals one of them
                 G = tuple((xs[i] - ws[i]) // S[i] + 1 for i in range(len(xs)))
                 prob = query.Problem(list(p.pc) + list(p.dom))
-                for n in range(1):
+                for n in range(np.shape(x)[0]):
                     for g in np.ndindex(*G):
                         o = Sym.lift(np.asarray(data, dtype=object)[(n,) + g])
                         elems = [Sym.lift(x[(n,) + tuple(g[i] * S[i] + k[i] for i in range(len(xs)))]) for k in np.ndindex(*ws)]
